@@ -30,7 +30,7 @@ man = {
     'hooks': {'guard': 'verif', 'enable': 'none needed: harnesses are added to the packages as go/packages and go test -overlay files; nothing is written into /repo',
               'baseline_off_cmd': 'cd /repo && GOFLAGS=-mod=mod GOPROXY=off go test -vet=off -count=1 ./...', 'source_commits': [], 'add_only': True},
     'engines': [{'name': 'gosmt', 'path': 'engine', 'serves_properties': [c['property_id'] for c in checks],
-                 'kind_free_text': 'own Go SSA (golang.org/x/tools v0.29.0) -> SMT-LIB2 path-forking / state-merging symbolic executor; z3 4.8.12 live (cvc5 1.0.3 for some checks), z3 5.1.0 and cvc5 for escalation and cross-checks; counterexamples and sampled explored-path models replayed natively with go test -overlay'}],
+                 'kind_free_text': 'own Go SSA (golang.org/x/tools v0.29.0) -> SMT-LIB2 path-forking / state-merging symbolic executor; z3 5.1.0 live (cvc5 1.0.3 for the 64-bit order, hash and IEEE floating-point units), z3 4.8.12, z3 5.1.0 and cvc5 for escalation and cross-checks; counterexamples and sampled explored-path models replayed natively with go test -overlay'}],
     'checks': checks,
     'notes': meta['notes'],
     'not_applicable': na,
